@@ -13,10 +13,12 @@ import numpy as np
 from harness import vlib
 from harness.vlib import Nat, cq, Raw
 
+USES_TRANSLATOR = True
 RULE = ('case = solved dual relaxation (unconstrained / constrained, X None / inferred incl. lifted PolyDomain, ell,p,q<=1) with recovery '
         'options (skip_ls, tolerances, heuristic_signs, all_signs); every candidate passed to is_feasible is logged; non-trivial = run '
         'with >= 2 candidates of which at least one is rejected or >= 2 are returned')
-TRUSTED = ['correspondence harness harness/props/c17.py (wraps is_feasible in its own process; values are exact binary fractions of the floats)',
+TRUSTED = ['translator harness/translator/funcs.py (Gen/GenSolrec.v: is_feasible regenerated from sig_solution_recovery.py; call sites and default tolerances pinned)',
+           'correspondence harness harness/props/c17.py (wraps is_feasible in its own process; values are exact binary fractions of the floats)',
            'ORACLES: lstsq, the conic least-squares solves, exp/log of moments, COBYLA are not modelled: the theorems quantify over every candidate list',
            'ORACLE: ECOS for the relaxations that are solved first']
 ASSUMPTIONS = ['Model/Solrec.v is hand written; tied by correspondence only',
